@@ -51,11 +51,21 @@ ESCAPE_CLASSES = {
     'ctl_u00XX': [0, 1, 7, 0x0B, 0x0E, 0x1F], 'slash': [0x2F], 'del': [0x7F], 'c1': [0x80, 0x85, 0x9F],
     'u2028': [0x2028, 0x2029], 'bmp': [0xE9, 0x4E2D, 0x65E5, 0xFFFD, 0xFEFF], 'bmp_high': [0xE000, 0xFFFF, 0xFFFE],
     'ascii': [0x20, 0x41, 0x61, 0x7A, 0x7E, 0x7B, 0x7D, 0x5B, 0x5D, 0x3A, 0x2C, 0x30, 0x39, 0x2D, 0x25],
+    # single characters that are well-formed but not in Unicode normalisation form C (singleton / compatibility-ideograph /
+    # excluded decompositions: ANGSTROM, OHM, KELVIN SIGN, U+F900, EN QUAD, U+0340, U+0343, U+0344, U+0374, U+037E, U+0387, U+1F71,
+    # U+0958, U+FB1D, U+2ADC) and lone combining marks / conjoining jamo that compose with what a neighbour may be
+    'not_nfc': [0x212B, 0x2126, 0x212A, 0xF900, 0x2000, 0x0340, 0x0343, 0x0344, 0x0374, 0x037E, 0x0387, 0x1F71, 0x0958, 0xFB1D, 0x2ADC,
+                0x0301, 0x0308, 0x030A, 0x1161, 0x11A8],
 }
 ASTRAL = [[0xD83D, 0xDE00], [0xD800, 0xDC00], [0xDBFF, 0xDFFF], [0xD834, 0xDD1E]]
+# well-formed sequences that are NOT in normalisation form C / KC / D: nothing may compose, decompose or reorder them
+# (e + U+0301, A + U+030A, marks in non-canonical order, decomposed Hangul jamo LV / LVT, U+1D15E as a surrogate pair, NFD of U+00C5)
+NOT_NFC_SEQS = [[0x65, 0x0301], [0x41, 0x030A], [0x61, 0x0307, 0x0323], [0x1100, 0x1161], [0x1100, 0x1161, 0x11A8], [0xD834, 0xDD5E],
+                [0x212B], [0x2126], [0x6F, 0x0308, 0x0304], [0x0915, 0x093C], [0xAC00, 0x11A8], [0xFB01], [0xFF21], [0x00B5], [0x1E9B, 0x0323]]
 POOL = ['', 'a', 'hello world', 'q"uote', 'back\\slash', 'nl\nx', 'tab\t', '\x01\x1f', '\x7f', '\u00e9', '  ',
         '\U0001F600', '\u65e5\u672c', '/slash', '\r\n', '{"k":1}', '%{x}', '\u2028\u2029', 'null', 'true', '-1',
-        '\\u0041', '\\n', '"', '\\', '\\"', 'a\x00b', '\ud7ff\ue000', '</script>', '\x1b[0m']
+        '\\u0041', '\\n', '"', '\\', '\\"', 'a\x00b', '\ud7ff\ue000', '</script>', '\x1b[0m',
+        'cafe\u0301', '\u212b\u2126\u212a', '\u1100\u1161\u11a8', '\U0001D15E', 'A\u030a ngstro\u0308m', 'a\u0307\u0323']
 
 
 def gen_units(rng, hist=None, maxlen=24, malformed=False):
@@ -73,6 +83,9 @@ def gen_units(rng, hist=None, maxlen=24, malformed=False):
             if q < 0.12:
                 s += rng.choice(ASTRAL)
                 cls = 'astral'
+            elif q < 0.2:
+                s += rng.choice(NOT_NFC_SEQS)
+                cls = 'not_nfc_sequence'
             else:
                 cls = rng.choice(list(ESCAPE_CLASSES))
                 s.append(rng.choice(ESCAPE_CLASSES[cls]))
